@@ -172,7 +172,11 @@ class ErrorFamily:
             rules.insert(1, {'match': {'key': 'kc'}, 'action': 'error', 'options': {'ecode': other, 'message': 'again'}, 'times': 1})
         sc = {'id': '', 'family': 'error', 'sched': rt['flavor'] + '-' + order, 'seed': rng.randrange(1 << 30), 'runtime': rt, 'engine': {'store': opts.get('store', 'mem'), 'keep_processes': True}, 'models': [json.dumps(wf)],
               'responder': {'mode': 'quiescent', 'order': order, 'rules': rules}, 'ops': [{'op': 'start', 'mid': 'm1', 'vars': {'pid': 'p1'}}, {'op': 'run', 'snap': opts.get('snap', 'live')}, {'op': 'snapshot', 'level': opts.get('snap', 'live')}]}
-        if rng.random() < opts.get('evict', 0.3):
+        if opts.get('store') == 'sqlite' and rng.random() < opts.get('restart', 0.0):
+            sc['faults'] = {'restart_at': sorted(set(rng.randint(1, 5) for _ in range(rng.randint(1, 2))))}
+            sc['sched'] += '+restart'
+            sc['watchdog_ms'] = 60000
+        elif rng.random() < opts.get('evict', 0.3):
             sc['faults'] = {'evict_at': sorted(set(rng.randint(1, 6) for _ in range(rng.randint(1, 2))))}
             sc['sched'] += '+evict'
         return {'scenarios': [sc], 'meta': {'wf': wf, 'code': code, 'source': source}, 'digest': digest([wf, code]), 'nontrivial': True}
